@@ -3,9 +3,13 @@
 meta.json names the property) to /repo, runs the quick check, reverts, and prints whether the check fired."""
 import subprocess, sys, os, glob, json, time
 seeded_only = "--seeded" in sys.argv
+# --shadow: patch /tmp/wt-verify instead of /repo and run the checks against it (VERIF_REPO), so that
+# /repo stays untouched while other runs read it
+REPO = "/tmp/wt-verify" if "--shadow" in sys.argv else "/repo"
+ENV = dict(os.environ, VERIF_REPO=REPO) if REPO != "/repo" else dict(os.environ)
 args = [a for a in sys.argv[1:] if not a.startswith("--")]
 props = args or sorted(os.listdir("/verif/mutations"))
-subprocess.run(["git", "-C", "/repo", "diff", "--quiet"], check=True)
+subprocess.run(["git", "-C", REPO, "diff", "--quiet"], check=True)
 rows = []
 import shutil, atexit
 _saved = {}
@@ -32,18 +36,18 @@ for prop in props:
         if meta.get("property") == prop:
             patches.append(os.path.join(os.path.dirname(m), "patch.diff"))
     for patch in patches:
-        r = subprocess.run(["git", "-C", "/repo", "apply", patch], capture_output=True, text=True)
+        r = subprocess.run(["git", "-C", REPO, "apply", patch], capture_output=True, text=True)
         if r.returncode != 0:
             rows.append((prop, patch, "APPLY-FAILED", r.stderr.strip()[:100]))
-            subprocess.run(["git", "-C", "/repo", "checkout", "--", "."])
+            subprocess.run(["git", "-C", REPO, "checkout", "--", "."])
             continue
         t = time.time()
         try:
-            out = subprocess.run(["/verif/check", prop, "--tier", "quick"], capture_output=True, text=True, timeout=3600)
+            out = subprocess.run(["/verif/check", prop, "--tier", "quick"], capture_output=True, text=True, timeout=3600, env=ENV)
             code = out.returncode
             first = next((l for l in out.stdout.splitlines() if l.startswith("  check=") or l.startswith("INCONCLUSIVE")), "")
         finally:
-            subprocess.run(["git", "-C", "/repo", "checkout", "--", "."], check=True)
+            subprocess.run(["git", "-C", REPO, "checkout", "--", "."], check=True)
         rows.append((prop, patch.replace("/verif/", ""), {0: "MISSED", 1: "caught", 2: "inconclusive"}.get(code, str(code)), f"{time.time()-t:.0f}s {first[:160]}"))
         print(*rows[-1], flush=True)
 print()
